@@ -329,3 +329,11 @@ def check(ctx):
     # the same array programs as text through the unified pipeline model (status + exact display)
     texts = [c[2] for c in cases if isinstance(c[2], str)]
     pipeline.run(ctx, [t for t in texts[: ctx.n(2500, 25000)] if len(t) < 3000], label="run-c12", min_modelled=0.0)
+
+
+# ---- refinement lemmas of the unified pipeline model for this property (Props/Pipeline2.lean): the fragment this check's
+# theorems are about IS what the whole-program model computes on the fragment's sub-language
+import pipeline as _pl
+LEAN_MODULES = LEAN_MODULES + [m for m in _pl.LEAN_MODULES2 if m not in LEAN_MODULES]
+THEOREMS = THEOREMS + [t for t in _pl.THEOREMS2.get(ID, []) if t not in THEOREMS]
+GEN = GEN + [g for g in _pl.GEN if g not in GEN]
